@@ -55,6 +55,9 @@ const (
 
 	cacheFileMagic   = "P2CC"
 	cacheFileVersion = 1
+
+	// set in the stream id of a record in the file when the record is invalidated
+	invalidatedStreamFlag = uint64(1) << 63
 )
 
 func readVarInt(r io.ByteReader) (uint64, int, error) {
@@ -280,6 +283,25 @@ func NewCacheFile(cachePath string) (*cacheFile, error) {
 				break
 			}
 			return nil, fmt.Errorf("failed to skip stream data: %w", err)
+		}
+
+		if streamSection.StreamID&invalidatedStreamFlag != 0 {
+			// The record was invalidated: it is free space and it hides every earlier
+			// record of the same stream.
+			streamID := streamSection.StreamID &^ invalidatedStreamFlag
+			if info, ok := res.streamInfos[streamID]; ok {
+				if res.freeSize == 0 || res.freeStart > info.offset-streamHeaderSize {
+					res.freeStart = info.offset - streamHeaderSize
+				}
+				res.freeSize += streamHeaderSize + int64(info.size)
+				delete(res.streamInfos, streamID)
+			}
+			if res.freeSize == 0 || res.freeStart > res.fileSize-streamHeaderSize {
+				res.freeStart = res.fileSize - streamHeaderSize
+			}
+			res.freeSize += streamHeaderSize + int64(streamSize)
+			res.fileSize += int64(streamSize)
+			continue
 		}
 
 		if info, ok := res.streamInfos[streamSection.StreamID]; ok {
@@ -749,6 +771,12 @@ func (cachefile *cacheFile) InvalidateChangedStreams(streams *bitmask.LongBitmas
 			}
 			delete(cachefile.streamInfos, uint64(streamID))
 			invalidatedStreams.Set(streamID)
+			// Make the invalidation survive a restart: flag the record in the file.
+			flagged := [streamHeaderSize]byte{}
+			binary.LittleEndian.PutUint64(flagged[:], uint64(streamID)|invalidatedStreamFlag)
+			if _, err := cachefile.file.WriteAt(flagged[:], info.offset-streamHeaderSize); err != nil {
+				log.Printf("Failed to flag stream %d as invalidated in converter cache file(%q): %v", streamID, cachefile.cachePath, err)
+			}
 		}
 	}
 
